@@ -45,6 +45,7 @@ def _compare(target, real_out, spec_out, args_real, args_twin, kw_real, kw_twin)
         rb = sb.take([spec_out[1], list(args_twin), dict(kw_twin)])
         replay.COMPARE_ALIASING = False
         try:
+            replay.reset_pairing()
             for nm, x, y in zip(('return', 'args', 'kwargs'), ra[2], rb[2]):
                 replay.diff(x, y, nm, diffs)
         finally:
